@@ -471,8 +471,15 @@ impl<'a> Lexer<'a> {
             // we can't properly show the "end of input" span.
             // For now, have the span point at the last byte in the source.
             // See: https://github.com/zkat/miette/issues/219
-            span.start = span.start.saturating_sub(1);
-            span.end = span.start + 1;
+            // Step back to the start of the last character (not byte) so the
+            // span stays on character boundaries and inside the source.
+            let source = self.0.source();
+            let mut start = span.start.saturating_sub(1);
+            while !source.is_char_boundary(start) {
+                start -= 1;
+            }
+            span.start = start;
+            span.end = start + source[start..].chars().next().map_or(0, char::len_utf8);
         }
 
         to_source_span(span)
